@@ -257,6 +257,8 @@ func main() {
 	})
 	r.Sample(map[string]any{"patterns": []string{pool[5], pool[9]}, "paths": lpaths[100:103]})
 
+	consumers(r)
+
 	nOut := int64(0)
 	outcomes.Range(func(k, v any) bool { nOut++; return true })
 	r.Extra["single_patterns"] = len(pats)
@@ -264,9 +266,10 @@ func main() {
 	r.Extra["pattern_lists"] = len(lists)
 	r.Extra["list_paths"] = len(lpaths)
 	r.Extra["mismatching_evaluations"] = mism.Load()
-	r.Assumptions = []string{"unescaped [ and ] and escapes of ordinary characters are outside the stated glob semantics and only required not to panic", "paths are non-empty strings over " + strings.Join(pathAl, " ")}
+	r.Extra["consumer_calls"] = r.Get("consumer_calls")
+	r.Assumptions = []string{"consumers: glob() and os.glob() are called with every include list of 1-2 patterns x exclude list of 0-1 (thorough 0-2) patterns from a 20-pattern pool on a generated tree, and dawn.toml ignore lists of 1-2 patterns decide which packages load; each selection is compared with the reference matcher over the full tree", "unescaped [ and ] and escapes of ordinary characters are outside the stated glob semantics and only required not to panic", "paths are non-empty strings over " + strings.Join(pathAl, " ")}
 	r.Finish(vlib.Coverage{
-		Evaluations:        evals.Load() + listEvals.Load(),
+		Evaluations:        evals.Load() + listEvals.Load() + r.Get("consumer_calls"),
 		DistinctNontrivial: nontrivial.Load() + listNontrivial.Load(),
 		Rule:               "all pattern strings of <=N tokens over the 12-token glob alphabet x all paths of length<=5 over {a,b,/,.,*,[}; all ordered lists of 0-2 patterns (3 from a sub-pool in quick, full pool in thorough) from a 60-pattern pool x all paths of length<=4; non-trivial = pattern/list that accepts at least one path and rejects at least one",
 		States:             int64(len(pats) + len(lists)),
